@@ -2,7 +2,7 @@
 use crate::ag::*;
 use crate::rng::Rng;
 
-pub const TNAMES: [&str; 6] = ["a", "b", "c", "d", "e", "f"];
+pub const TNAMES: [&str; 14] = ["a", "b", "c", "d", "e", "f", "g", "h", "i", "j", "k", "m", "n", "o"];
 pub const NNAMES: [&str; 6] = ["S", "A", "B", "C", "D", "E"];
 
 #[derive(Clone, Copy)]
@@ -41,6 +41,90 @@ pub fn gen_bnf(rng: &mut Rng, o: &BnfOpts) -> AG {
             }
         }
         rules.push(Rule { name: NNAMES[i].to_string(), alts, meta: Meta::default() });
+    }
+    AG { terms, rules }
+}
+
+/// "Context" family: a few shared non-terminals (unit chains down to a nullable or
+/// non-nullable leaf) used under several prefixes and followers. Finite languages whose
+/// LALR automata need look-aheads to travel through merges and several closure hops —
+/// the shapes small random BNF rarely produces.
+pub fn gen_ctx(rng: &mut Rng) -> AG {
+    let nshared = rng.range(2, 3);
+    let nfollow = rng.range(2, 3);
+    let nctx = rng.range(2, 4);
+    let mut terms: Vec<Term> = vec![];
+    let mut t = |terms: &mut Vec<Term>| {
+        terms.push(lit_term(terms.len()));
+        terms.len() - 1
+    };
+    let prefixes: Vec<usize> = (0..nctx).map(|_| t(&mut terms)).collect();
+    let followers: Vec<usize> = (0..nfollow).map(|_| t(&mut terms)).collect();
+    let head = t(&mut terms);
+    let mut rules: Vec<Rule> = vec![Rule { name: "S".into(), alts: vec![], meta: Meta::default() }];
+    let alt = |syms: Vec<Sym>| Alt { syms, meta: Meta::default() };
+    // shared non-terminals
+    let mut shared = vec![];
+    for si in 0..nshared {
+        let idx = rules.len();
+        rules.push(Rule { name: format!("P{}", si), alts: vec![], meta: Meta::default() });
+        shared.push(idx);
+        let depth = rng.range(0, 3);
+        let mut body = vec![Sym::T(head)];
+        if depth == 0 {
+            if rng.chance(0.6) {
+                body.push(Sym::T(t(&mut terms)));
+            }
+        } else {
+            // chain X1: X2; ... Xd: leaf | EMPTY
+            let mut prev: Option<usize> = None;
+            let first = rules.len();
+            for d in 0..depth {
+                let i = rules.len();
+                rules.push(Rule { name: format!("X{}_{}", si, d), alts: vec![], meta: Meta::default() });
+                if let Some(p) = prev {
+                    rules[p].alts.push(alt(vec![Sym::N(i)]));
+                }
+                prev = Some(i);
+            }
+            let leaf = t(&mut terms);
+            let last = prev.unwrap();
+            rules[last].alts.push(alt(vec![Sym::T(leaf)]));
+            if rng.chance(0.7) {
+                rules[last].alts.push(alt(vec![]));
+            }
+            if rng.chance(0.5) {
+                body.push(Sym::N(first));
+            } else {
+                body.insert(0, Sym::N(first));
+            }
+        }
+        rules[idx].alts.push(alt(body));
+    }
+    // contexts
+    for c in 0..nctx {
+        let q = rules.len();
+        rules.push(Rule { name: format!("Q{}", c), alts: vec![], meta: Meta::default() });
+        let mut s = vec![Sym::T(prefixes[c]); rng.range(1, 3)];
+        s.push(Sym::N(q));
+        rules[0].alts.push(alt(s));
+        let mut used = vec![];
+        for _ in 0..rng.range(1, 2) {
+            let sh = shared[rng.below(shared.len())];
+            let f = followers[rng.below(followers.len())];
+            if used.contains(&(sh, f)) {
+                continue;
+            }
+            used.push((sh, f));
+            rules[q].alts.push(alt(vec![Sym::N(sh), Sym::T(f)]));
+        }
+    }
+    if rng.chance(0.3) {
+        // one context without prefix indirection
+        let sh = shared[rng.below(shared.len())];
+        let f = followers[rng.below(followers.len())];
+        let p = prefixes[0];
+        rules[0].alts.push(alt(vec![Sym::T(p), Sym::N(sh), Sym::T(f)]));
     }
     AG { terms, rules }
 }
@@ -126,6 +210,7 @@ pub const CORPUS: &[(&str, &str)] = &[
     ("stmt_list", "P: L; L: L S | EMPTY; S: i q E t | b L e; E: E p n | n"),
     ("two_nullable_alts", "S: A x | B y; A: a | EMPTY; B: b | EMPTY"),
     ("eps_tail_pair", "S: a B; B: C D; C: c | EMPTY; D: d | EMPTY"),
+    ("lookahead_through_merge", "S: k P t | m Q | n n n R; Q: P u | W v; R: P t | W v; P: a X; W: a c; X: Y; Y: y | EMPTY"),
 ];
 
 pub fn corpus() -> Vec<(String, AG)> {
@@ -212,7 +297,21 @@ pub fn random_sentence(g: &AG, rng: &mut Rng, budget: usize) -> Option<Vec<usize
     }
 }
 
-pub const WS_CHOICES: [&str; 7] = [" ", "  ", "\t", "\n", "\r\n", " \n ", "\n\n"];
+pub const WS_CHOICES: [&str; 12] = [" ", "  ", "\t", "\n", "\r\n", " \n ", "\n\n", "\n\u{a0}", "\n\u{3000} ", "\u{2003}", "\r\n\u{a0}\u{a0}\t", "\u{a0}\n"];
+
+/// Non-ASCII, partly multi-line literals (prefix-free: distinct first characters).
+pub const ULITS: [&str; 14] = ["é", "ж", "日本", "ц\nц", "ü", "ß", "λx", "→", "𝄞", "ñ\nñ é", "ø", "ÿ\r\nÿ", "ა", "Ω"];
+
+/// Replace the single-letter literals by non-ASCII ones (terminal names stay).
+pub fn unicodeify(g: &mut AG, rng: &mut Rng) {
+    let mut idx: Vec<usize> = (0..ULITS.len()).collect();
+    rng.shuffle(&mut idx);
+    for (i, t) in g.terms.iter_mut().enumerate() {
+        if i < idx.len() {
+            t.rec = Rec::Lit(ULITS[idx[i]].to_string());
+        }
+    }
+}
 
 /// Render a token string: tokens separated by `sep(i)`; returns (input, token spans).
 pub fn render(g: &AG, w: &[usize], mut sep: impl FnMut(usize) -> String, lead: &str, trail: &str) -> (String, Vec<(usize, usize, usize)>) {
